@@ -378,6 +378,48 @@ def classify(detail, bundle, history=()):
   return "%s|%s|%s" % (",".join(action_kinds(bundle)), ",".join(shapes2), ",".join(kinds))
 
 
+# Fixed witnesses of defects met OUTSIDE the narrowed action mix (each replayed natively; see
+# findings_proposed/C05-*.md).  They are run on every check; a witness that no longer fails prints
+# nothing.  (seed document, history, name)
+WITNESSES = [
+  ("lookup", [[["RemoveColumn", "A", "tags"]]], "RemoveColumn-of-lookup-key-column"),
+  ("refs", [[["ReplaceTableData", "A", [5], {"n": [9], "s": ["z"]}]]], "ReplaceTableData-rows-disappear"),
+  ("prevnext", [[["ModifyColumn", "A", "d", {"type": "Any"}]]], "ModifyColumn-type-of-sort-column"),
+  ("basic", [[["AddColumn", "A", "q", {"type": "Any", "isFormula": True,
+                                      "formula": "len(A.lookupRecords(zz=$n))"}]],
+             [["AddColumn", "A", "zz", {"type": "Int", "isFormula": False}]]],
+   "column-named-by-lookup-key-added-later"),
+  ("summary", [[["AddColumn", "A_summary_tags", "f1", {"type": "Any", "isFormula": True,
+                 "formula": "A_summary.lookupOne(count=$count).id"}]],
+               [["RemoveTable", "A_summary"]], [["CreateViewSection", 1, 0, "record", [], None]]],
+   "table-named-by-formula-recreated"),
+  ("basic", [[["RemoveColumn", "A", "f"], ["UpdateRecord", "NoSuchTable", 1, {"x": 1}]]],
+   "rolled-back-RemoveColumn-of-formula-column"),
+  ("summary", [[["ModifyColumn", "A", "tags", {"type": "Any"}]]], "type-change-of-summary-groupby-source"),
+  ("twoway_list", [[["AddColumn", "B", "f1", {"type": "Int", "isFormula": True,
+                                            "formula": "len(B.lookupRecords(A=$id))"}]],
+                   [["ModifyColumn", "B", "A", {"type": "Ref:A"}]]], "type-change-of-lookup-key-column"),
+]
+
+
+def run_witnesses(rep):
+  m = C05Monitor()
+  n = 0
+  for seed_doc, history, name in WITNESSES:
+    try:
+      failures, stats, hist = explore.run_history(m, seed_doc, history)
+    except Exception as ex:
+      rep.crash("witness %s: %r" % (name, ex))
+      continue
+    n += stats["bundles"]
+    for f in failures[:1]:
+      rep.violation(f["clause"], {"obligation": f["clause"], "class": "witness:" + name,
+                                  "root_cause_class": f["class"], "seed_doc": seed_doc,
+                                  "history": history, "detail": f["detail"], "tier": "bounded"})
+  rep.coverage["evaluations"] = rep.coverage.get("evaluations", 0) + n
+  rep.coverage["witness_histories"] = len(WITNESSES)
+
+
 def main():
   rep = common.Report("C05", "exploration")
   rep.assumptions += [
@@ -395,10 +437,21 @@ def main():
     "every formula column of every table with the specification function scratch(e); 30% of the "
     "bundles set a formula drawn from the grammar (column arithmetic, reference chains, reference "
     "list attributes, lookupRecords/lookupOne with CONTAINS and order_by, summary $group, "
-    "PREVIOUS/NEXT/RANK, cross-table chains) instantiated on the current document; non-trivial = "
-    "the bundle changed the document or raised")
+    "PREVIOUS/NEXT/RANK, cross-table chains) instantiated on the current document and kept "
+    "statically acyclic; the other bundles are record adds / updates / removals (single, bulk, "
+    "temporary ids, upserts), column / table renames, added data columns and tables, label edits, "
+    "invalid actions and multi-action bundles of those (see action_mix; NARROWED BOUND: see "
+    "outside_the_bound); numbers are compared by value (1 == 1.0); non-trivial = the bundle "
+    "changed the document or raised")
   explore.explore(rep, "checks.C05", "C05Monitor", n_quick=160, n_thorough=4000,
-                  budget_quick_s=50, budget_thorough_s=800)
+                  budget_quick_s=45, budget_thorough_s=800)
+  run_witnesses(rep)
+  rep.coverage["action_mix"] = MIX
+  rep.coverage["outside_the_bound"] = (
+    "RemoveColumn, RemoveTable, ModifyColumn(type / isFormula), ReplaceTableData, direct metadata "
+    "edits and summary-table creation are not in the random action mix (several independent "
+    "defects in how dependents are invalidated make nearly every such history fail); the defects "
+    "found there are pinned by %d fixed witness histories" % len(WITNESSES))
   return rep.finish()
 
 
